@@ -3,6 +3,7 @@ package drive
 import (
 	"encoding/json"
 	"math/rand"
+	"sync"
 
 	goatcrypto "github.com/goatnetwork/goat/pkg/crypto"
 	bitcointypes "github.com/goatnetwork/goat/x/bitcoin/types"
@@ -73,8 +74,16 @@ func rnd32(r *rand.Rand) []byte {
 	return b
 }
 
-// MerkleReplay runs every TLC-enumerated case against the real VerifyMerkelProof,
-// inst random instantiations of the ideal hashes per case.
+// merkleArgs is one concrete call of VerifyMerkelProof.
+type merkleArgs struct {
+	leaf, root, raw []byte
+	pos             uint32
+}
+
+// MerkleReplay runs every TLC-enumerated case against the real VerifyMerkelProof, inst random instantiations of the ideal hashes
+// per case: sequentially (with the genuine proof of the same leaf verified in between, see Again), and then ALL recorded calls
+// once more from 8 goroutines at the same time - inclusion is a relation on its arguments: neither the history of calls nor what
+// other verifications run concurrently (CheckTx, queries and block execution do) may change an answer.
 func MerkleReplay(casesFile, outFile string, seed int64, inst int) (int, error) {
 	w, err := tracew.Create(outFile)
 	if err != nil {
@@ -82,24 +91,55 @@ func MerkleReplay(casesFile, outFile string, seed int64, inst int) (int, error) 
 	}
 	defer w.Close()
 	r := rand.New(rand.NewSource(seed))
-	n := 0
+	var cases []*MerkleCase
+	var calls []merkleArgs
 	err = tracew.ReadNDJSON(casesFile, func(line []byte) error {
 		var c MerkleCase
 		if err := json.Unmarshal(line, &c); err != nil {
 			return err
 		}
 		for k := 0; k < inst; k++ {
-			c.Inst = k
-			c.Impl, c.Again = merkleCall(r, &c)
-			w.Emit(&c)
-			n++
+			cc := c
+			cc.Inst = k
+			var a merkleArgs
+			cc.Impl, cc.Again, a = merkleCall(r, &cc)
+			cases = append(cases, &cc)
+			calls = append(calls, a)
 		}
 		return nil
 	})
-	return n, err
+	if err != nil {
+		return 0, err
+	}
+	const workers = 8
+	var wg sync.WaitGroup
+	conc := make([]bool, len(calls))
+	for g := 0; g < workers; g++ {
+		wg.Add(1)
+		go func(g int) {
+			defer wg.Done()
+			for round := 0; round < 2; round++ {
+				for i := g; i < len(calls); i += workers {
+					a := calls[i]
+					v := bitcointypes.VerifyMerkelProof(a.leaf, a.root, a.raw, a.pos)
+					if round == 0 || v != cases[i].Impl {
+						conc[i] = v
+					}
+				}
+			}
+		}(g)
+	}
+	wg.Wait()
+	for i, c := range cases {
+		if conc[i] != c.Impl {
+			c.Again = conc[i] // the concurrent answer differs from the sequential one: reported through the same field
+		}
+		w.Emit(c)
+	}
+	return len(cases), nil
 }
 
-func merkleCall(r *rand.Rand, c *MerkleCase) (bool, bool) {
+func merkleCall(r *rand.Rand, c *MerkleCase) (bool, bool, merkleArgs) {
 	leaves := make([][]byte, c.N)
 	for i := range leaves {
 		leaves[i] = rnd32(r)
@@ -170,5 +210,5 @@ func merkleCall(r *rand.Rand, c *MerkleCase) (bool, bool) {
 	first := bitcointypes.VerifyMerkelProof(leaf, root, raw, pos)
 	// the genuine proof of the same leaf at its real position, then the very same question again
 	bitcointypes.VerifyMerkelProof(leaves[c.I], t.Root(), flat(g), uint32(c.I))
-	return first, bitcointypes.VerifyMerkelProof(leaf, root, raw, pos)
+	return first, bitcointypes.VerifyMerkelProof(leaf, root, raw, pos), merkleArgs{leaf: leaf, root: root, raw: raw, pos: pos}
 }
